@@ -125,7 +125,7 @@ def iterate(spec, visit):
         )
         @given(g=gg.closed_cfgs(max_n=max_n, modes=modes), style=st.sampled_from(gg.STYLES), pk=st.integers(0, 2**20))
         def t(g, style, pk):
-            named = gg.restyle(g, style, _perm(len(g), pk) if style in ("perm", "alpha", "gen", "zpad") else None)
+            named = gg.restyle(g, style, _perm(len(g), pk) if style in ("perm", "alpha", "gen", "zpad", "words") else None)
             visit(g, named, "hyp")
 
         t()
